@@ -130,25 +130,27 @@ def check_object_behaviour(ctx, case):
             ctx.fail("a SeqRecord declared {} can be wrapped as circular".format(topo), case)
         except ValueError:
             pass
-    # copy-on-wrap isolation
-    src = impl.mk_record(CRec(1, wd, feats_from_json(case["feats"]), [5]), circular=False)
-    src.dbxrefs = ["a"]
-    src.letter_annotations["pairs"] = [[i, i + 1] for i in range(len(wd))]      # per-letter values that are mutable
-    before = (impl.canon_record(src), list(src.dbxrefs), dict(src.annotations))
-    cp = CircularRecord(src)
-    if len(wd) >= 1:
-        cp.letter_annotations["pairs"][0][0] = 999
-        if src.letter_annotations["pairs"][0][0] == 999:
-            ctx.fail("editing a per-letter value of a wrapped copy reaches the original record", case)
-    cp.features.append(impl.mk_feature(impl.Feat(1, "u1", (), ((0, 1, 1),))))
-    for f in cp.features:
-        f.qualifiers["label"] = ["edited"]
-    cp.annotations["references"].append(impl.mk_ref(9))
-    cp.annotations["new"] = 1
-    cp.dbxrefs.append("b")
-    after = (impl.canon_record(src), list(src.dbxrefs), {k: v for k, v in src.annotations.items()})
-    if before[0] != after[0] or before[1] != after[1] or set(before[2]) != set(after[2]):
-        ctx.fail("editing a wrapped copy reaches the original record", case)
+    # copy-on-wrap isolation — whether what is wrapped is a plain record or already a circular one
+    for already in (False, True):
+        src = impl.mk_record(CRec(1, wd, feats_from_json(case["feats"]), [5]), circular=already)
+        src.dbxrefs = ["a"]
+        src.letter_annotations["pairs"] = [[i, i + 1] for i in range(len(wd))]      # per-letter values that are mutable
+        before = (impl.canon_record(src), list(src.dbxrefs), dict(src.annotations))
+        cp = CircularRecord(src)
+        what = "a circular record" if already else "a record"
+        if len(wd) >= 1:
+            cp.letter_annotations["pairs"][0][0] = 999
+            if src.letter_annotations["pairs"][0][0] == 999:
+                ctx.fail("editing a per-letter value of a wrapped copy of {} reaches the original".format(what), case)
+        cp.features.append(impl.mk_feature(impl.Feat(1, "u1", (), ((0, 1, 1),))))
+        for f in cp.features:
+            f.qualifiers["label"] = ["edited"]
+        cp.annotations["references"].append(impl.mk_ref(9))
+        cp.annotations["new"] = 1
+        cp.dbxrefs.append("b")
+        after = (impl.canon_record(src), list(src.dbxrefs), {k: v for k, v in src.annotations.items()})
+        if before[0] != after[0] or before[1] != after[1] or set(before[2]) != set(after[2]):
+            ctx.fail("editing a wrapped copy of {} reaches the original".format(what), case)
     # the same for a bare record (as read from FASTA): nothing to copy yet, still nothing may be shared
     bare = SeqRecord(Seq(wd), id="bare")
     c1, c2 = CircularRecord(bare), CircularRecord(bare)
